@@ -384,3 +384,55 @@ def mk_steps(ctx):
     for m in mism[:3]:
         print("GROWTH-MISMATCH module=MultiKneeSteps %s" % m)
     return mism
+
+
+def accuracy_knee_t(ctx):
+    """evaluation.accuracy_knee documents `t` as the R2 threshold of the neighbourhood search but never passes it on: the result
+    is the one for the callee's default (0.9) whatever t is.  Outside the listed properties (C19 covers cm / mae / ... / mcc):
+    a note, found by the unused-parameter scan that followed D15."""
+    import random
+    import kneeliverse.evaluation as ev
+    from harness import curves
+    rng = random.Random(ctx.seed + 4242)
+    differs, same, witness = 0, 0, None
+    for _ in range(60):
+        P = curves.random_curve(rng, 12, 40)
+        n = len(P)
+        K = np.array(sorted(rng.sample(range(2, n - 1), min(3, n - 3))))
+        x, y = P[:, 0], P[:, 1]
+        for t in (0.5, 0.99):
+            try:
+                got = float(ev.accuracy_knee(P, K, t)[0])
+                prev, dxs = 0, []
+                for k in K:
+                    idx = ev.get_neighbourhood_fast(x, y, int(k), int(prev), t)[0]
+                    dxs.append(abs(x[idx] - x[k]) / abs(x[-1] - x[0]))
+                    prev = k
+                want = float(np.mean(dxs))
+            except Exception:
+                continue
+            if abs(got - want) > 1e-9 * (1 + abs(want)):
+                differs += 1
+                witness = witness or {"points": P.tolist()[:6] + ["..."], "knees": K.tolist(), "t": t, "average_x": got, "with_t_forwarded": want}
+            else:
+                same += 1
+    ctx.extra.setdefault("growth", {})["accuracy_knee"] = {
+        "calls": differs + same, "calls_where_t_is_ignored_visibly": differs, "witness": witness,
+        "what": "evaluation.accuracy_knee(points, knees, t): the documented R2 threshold t is not forwarded to get_neighbourhood_fast "
+                "(unused parameter); beyond the listed properties, note only"}
+    if differs:
+        print("GROWTH-MISMATCH module=Neighbourhood accuracy_knee ignores its t argument (%d of %d probe calls differ from the result with t forwarded)" % (differs, differs + same))
+    return differs
+
+
+def safe(ctx, fn):
+    """Growth components are notes beyond the listed properties: a failure inside one (a bug of the component, a TLC timeout)
+    must never turn the owning check into a machinery failure, let alone a violation."""
+    try:
+        return fn(ctx)
+    except BaseException as ex:      # noqa: B902 - including TLC failures raised by ctx.mc / ctx.trace
+        if isinstance(ex, (KeyboardInterrupt, SystemExit)):
+            raise
+        ctx.extra.setdefault("growth", {})[getattr(fn, "__name__", "?")] = {"skipped": "growth component failed: %s" % repr(ex)[:300]}
+        print("GROWTH-SKIPPED %s: %s" % (getattr(fn, "__name__", "?"), repr(ex)[:200]))
+        return None
